@@ -23,6 +23,8 @@ type Mutant struct {
 	New    string
 	Nth    int    // which occurrence of Old (0 = first)
 	Expect string // substring that must appear in "rule :: construct" of a reported non-ok obligation
+	Old2   string // optional second edit in the same file (first occurrence), applied after the first
+	New2   string
 }
 
 type Property struct {
@@ -114,6 +116,16 @@ func applyMutant(c *Ctx, m Mutant) (bool, string) {
 	nb := append([]byte{}, b[:idx]...)
 	nb = append(nb, m.New...)
 	nb = append(nb, b[idx+len(m.Old):]...)
+	if m.Old2 != "" {
+		j := bytes.Index(nb, []byte(m.Old2))
+		if j < 0 {
+			return false, "second pattern not found (source changed); mutant skipped"
+		}
+		nb2 := append([]byte{}, nb[:j]...)
+		nb2 = append(nb2, m.New2...)
+		nb2 = append(nb2, nb[j+len(m.Old2):]...)
+		nb = nb2
+	}
 	c.Overlay[path] = nb
 	return true, ""
 }
